@@ -60,6 +60,9 @@ OUTSIDE = ["values longer than the stated length; more than 3 values per header"
            "non-str values through the `expires` attribute (converted by http_date before the guard)",
            "Content-Length on 204 (RFC 7230 3.3.2) - the statement's table is RFC 2616's"]
 BUDGET_S = {"quick": 270, "thorough": 1150}
+# part of the check again with ombott compiled as `python -O` runs it (assert statements removed): a guard that refuses
+# CR/LF/NUL must not be an assertion
+ALSO_BUILDS = {"O": "value-ctl/*|value/setitem|value/append|value/ctor-kw|wsgi-value/response-setitem"}
 
 stubs_c14.install()
 assert stubs_c14.selfcheck() == 4
